@@ -812,6 +812,10 @@ def rectB (nc : Nat) (vs : List (List Val)) : Bool :=
       (match c with | .list _ => true | .tuple _ => true | _ => false) &&
       (asCol c).rows.length == (asCol (cols.headD .none)).rows.length
 
+/-- every error of the stream is terminal, as a Boolean (any element type) -/
+def cleanLB {α : Type} (ignore : Bool) (evs : List (Ev α)) : Bool :=
+  evs.all fun ev => match ev with | .error e => terminal ignore e | .ok _ => true
+
 /-- Boolean form of the side conditions of the batched refinement for one operator (see
 `Lemmas/PipeBatch.lean: BatchedOK`) -/
 def batchedOKB (ignore : Bool) (op : Op) (s : Nat) (src : List (Ev Val)) : Bool :=
@@ -820,7 +824,7 @@ def batchedOKB (ignore : Bool) (op : Op) (s : Nat) (src : List (Ev Val)) : Bool 
   let p2 := regroup op.fnBatch op.inKeys.length p1
   let p3 := callGroups ignore op p2.2 s p2.1
   cleanB ignore src && decide (0 < op.batch) && decide (0 < op.outKeys.length) &&
-  (l1.all fun ev => match ev with | .error e => terminal ignore e | .ok _ => true) &&
+  cleanLB ignore l1 &&
   (op.fnBatch == 0 || (decide (0 < op.inKeys.length) && rectB op.inKeys.length p1.1)) &&
   rectB op.outKeys.length p3.1
 
